@@ -195,7 +195,10 @@ Definition unref_internal (nid : N) (s : state) : state :=
       if (n_ref n - 1 =? 0)%Z then cache_delete (n_ns n) (n_key n) s1 else s1
   end.
 
-(* Node.unRefExternal (what Handle.Release does once its CAS succeeded) *)
+(* Node.unRefExternal (what Handle.Release does once its CAS succeeded).  On the closed path the code
+   (after "fix: cache: finalise once, and only at zero references, on a closed cache") re-reads the count
+   before callFinalizer; in this sequential function nothing can intervene between the decrement and
+   that re-read, so it is not written out — Conc/CacheLts.v has it as [zero_check_closed]. *)
 Definition unref_external (nid : N) (s : state) : state :=
   match find_id nid (s_nodes s) with
   | None => s
